@@ -92,12 +92,21 @@ MultiMutOk(r) ==
             /\ q.ans # "PANIC" /\ q.ansIdx # "PANIC"
             /\ QueryTruth(kv, q, q.ans) /\ QueryTruth(kv, q, q.ansIdx)
 
+\* conformance of multi_proof::verify with the transcription (Trie!VerifyMulti) on the recorded object itself.
+\* Where the transcription says "Malformed" (the Rust code indexes / subtracts without a guard) the real
+\* function must still return an error: a panic there is finding F6 (C18).
+MultiVerdictOk(r) ==
+    IF "mp" \notin DOMAIN r THEN TRUE
+    ELSE LET v == VerifyMulti([paths |-> r.mp.paths, sibs |-> r.mp.sibs], Root(KvOf(r.kv))) IN
+         IF v = "Malformed" THEN r.verify \notin {"Ok", "PANIC", "PANIC-from_path_proofs"}
+         ELSE r.verify = v
+
 RootOk(r) == r.rootTerm = Root(KvOf(r.kv)) /\ r.storeRootEqualsTermRoot
 
 RecOk(r) ==
     CASE r.k = "path"   -> PathOk(r)
       [] r.k = "update" -> UpdateOk(r)
-      [] r.k = "multi"  -> IF r.src = "honest" THEN MultiHonestOk(r) ELSE MultiMutOk(r)
+      [] r.k = "multi"  -> MultiVerdictOk(r) /\ (IF r.src = "honest" THEN MultiHonestOk(r) ELSE MultiMutOk(r))
       [] r.k = "root"   -> RootOk(r)
       [] OTHER -> FALSE
 
